@@ -117,6 +117,7 @@ class Scheduler:
         self.where = [''] * nthreads             # last known location of each thread
         self.op_steps = [0] * nthreads           # steps since the current op of a thread began
         self.cancel_at: list[int | None] = [None] * nthreads
+        self.cancel_fn: list = [None] * nthreads        # [function name, k]: cancel at the k-th line event inside it
         self.cancelled_fired = 0
         self.finished = False
         self.errors: list[str] = []
@@ -274,6 +275,14 @@ class Scheduler:
                     sched.cancelled_fired += 1
                     sched.log.update(f'C{i}@{sched.op_steps[i]};'.encode())
                     raise SimCancel()
+                cf = sched.cancel_fn[i]
+                if cf is not None and event == 'line' and frame.f_code.co_name == cf[0]:
+                    cf[1] -= 1
+                    if cf[1] <= 0:
+                        sched.cancel_fn[i] = None
+                        sched.cancelled_fired += 1
+                        sched.log.update(f'C{i}@{cf[0]}:{frame.f_lineno};'.encode())
+                        raise SimCancel()
                 if sched.steps > sched.max_steps:
                     sched.overrun = True
                     raise StepLimit()
@@ -381,12 +390,20 @@ class Scheduler:
         """Re-enables tracing for thread i after a trace function raised (SimCancel)."""
         sys.settrace(self._tracers[i])
 
-    def begin_op(self, i: int, cancel_at: int | None = None):
+    def begin_op(self, i: int, cancel_at=None):
+        """`cancel_at`: None, a step count within the op, or [function name, k] = the k-th line
+        event inside that function during the op (faults placed where state is being changed)."""
         self.op_steps[i] = 0
-        self.cancel_at[i] = cancel_at
+        if isinstance(cancel_at, (list, tuple)):
+            self.cancel_at[i] = None
+            self.cancel_fn[i] = [cancel_at[0], int(cancel_at[1])]
+        else:
+            self.cancel_at[i] = cancel_at
+            self.cancel_fn[i] = None
 
     def end_op(self, i: int) -> int:
         self.cancel_at[i] = None
+        self.cancel_fn[i] = None
         return self.op_steps[i]
 
     def note(self, text: str):
